@@ -8,8 +8,10 @@ pub static A0: i32 = 0; pub static A1: i32 = -7; pub static A2: i32 = 255;
 pub fn ivals() -> [&'static i32; 3] { [&A0, &A1, &A2] }
 '''
 
-LETTER = {"Display": "", "LowerHex": "x", "Debug": "?"}
-ATTR = {"Display": "display", "LowerHex": "lower_hex", "Debug": "debug"}
+LETTER = {"Display": "", "LowerHex": "x", "Debug": "?", "Binary": "b", "Octal": "o", "UpperHex": "X", "LowerExp": "e", "UpperExp": "E", "Pointer": "p"}
+ATTR = {"Display": "display", "LowerHex": "lower_hex", "Debug": "debug", "Binary": "binary", "Octal": "octal", "UpperHex": "upper_hex", "LowerExp": "lower_exp",
+        "UpperExp": "upper_exp", "Pointer": "pointer"}
+OTHER_TRAITS = ["Binary", "Octal", "UpperHex", "LowerExp", "UpperExp", "Pointer"]   # each has its own arm in the `_variant` default-placeholder table
 
 # variant kinds: (fields, own attribute literal or None, variant-level rename_all)
 KINDS = {
@@ -202,9 +204,18 @@ def run(chk, tier):
                         c = gen_case("c%d" % len(cases), derive, list(kinds), sk, rn, rename_first=first)
                         if c is not None:
                             cases.append(c)
+    # the remaining Display-like traits: every variant kind with fields, alone and in pairs, under the shared formats that do not need Display
+    okinds = ["t1", "n1", "t1_own", "t1_transparent", "multi_own"]
+    ocombos = [(k,) for k in okinds] + (list(itertools.product(okinds, repeat=2)) if thorough else [("t1", "t1_own"), ("n1", "multi_own"), ("t1_own", "t1")])
+    for derive in OTHER_TRAITS:
+        for kinds in ocombos:
+            for sk in ("none", "v", "p_v", "arg", "alias", "text", "f0", "v_f0", "v_dbg", "v_ws"):
+                c = gen_case("c%d" % len(cases), derive, list(kinds), sk, None)
+                if c is not None:
+                    cases.append(c)
     nrej = sum(1 for c in cases if c.expect == "fail")
     chk.part("space", programs=len(cases), expected_rejections=nrej, variant_kinds=kinds_alpha, shared_literals=list(SHARED), max_variants=maxv,
-             traits=["Display", "LowerHex", "Debug"], attribute_orders="`rename_all` before and after the enum-level format attribute", note="full product for <=2 variants (+ 3-variant products over 6 kinds in thorough); every value of every variant (3 values per field)")
+             traits=["Display", "LowerHex", "Debug"] + OTHER_TRAITS, attribute_orders="`rename_all` before and after the enum-level format attribute", note="full product for <=2 variants (+ 3-variant products over 6 kinds in thorough); every value of every variant (3 values per field)")
     eng = CompileEngine("C07", prelude=PRELUDE, per_bin=max(8, len(cases) // 24 + 1))
     results = eng.run_cases(cases)
     import re
